@@ -7,8 +7,11 @@ Decided, given that classification:
          property mode keeps iff inside-some or (on-edge-some and keep_contour);
          no-go mode keeps iff not inside-any and not (on-edge-any and not keep_contour);
          results holds one classification per boundary, for the point being decided, with the caller's tolerance
+         remove_cutout loops over ALL the outlines / coordinates it is given (the parameter may only be wrapped)
   R04.2  call constants: polygonal_land_constraint applies the property cut with remove_inside=False and
-         keep_contour[0], then the no-go cut with remove_inside=True and keep_contour[1] on the survivors;
+         keep_contour[0], then the no-go cut with remove_inside=True and keep_contour[1] on the survivors; on every
+         path through the loop over candidates the field that enters the domain is the candidate cut against the
+         property and - when there are no-go zones - against those (path enumeration, not names);
          the defaults are [True, False] in both places and nobody overrides them
   R04.3  return-code protocol: point_polygon_check returns only -1 / 0 / 1, 0 exactly on its on-edge exits,
          -1 for an even and 1 for an odd number of crossings; remove_cutout reads inside = 1, on_edge = 0
